@@ -3,6 +3,7 @@ CONSTANTS
   Budget = 5
   Enabled = {"Match", "PatOnly", "Module"}
   NameSet = {"a", "b"}
+  ExtraParens = FALSE
   Emit = TRUE
 SPECIFICATION Spec
 INVARIANTS EmitOK
